@@ -392,11 +392,24 @@ def check_c13(pid, tier, build, props):
             violations.append({"graph": [list(map(list, nb)) for nb in item],
                                "witness": {"reason": "implementation's answer differs from the proved reference",
                                            "queries": bad[:4], "ground_truth": c13_brute(item)}})
+    # the dominator work-list, line by line (Model/DomWl.v): every call the pipeline makes and direct calls
+    # with the successor sets enumerated in shuffled orders; outcome, table (key order included) and the
+    # order in which nodes are processed must be what the model computes
+    from . import domcalls
+    dt = domcalls.tie(tier, common.seed())
+    dom_tie_ok = dt["mismatch_count"] == 0 and not dt["harness_errors"] and dt["agree"] > 0
+    if not dom_tie_ok:
+        problems.append("correspondence _find_dominators_internal = Model/DomWl.v broken: %d calls differ, first: %r%s"
+                        % (dt["mismatch_count"], dt["mismatches"][:1],
+                           (" harness: %r" % dt["harness_errors"][:1]) if dt["harness_errors"] else ""))
     nth = len(props["theorems"])
     coverage = {
-        "obligations": nth + 1,
-        "discharged": (nth if props["ok"] else 0) + (1 if not violations and not errors and nq else 0),
-        "checker_cmd": "coqc Props/C13.v; build/extract/vchk (RunC13.run_c13) on exported query answers",
+        "obligations": nth + 2,
+        "discharged": (nth if props["ok"] else 0) + (1 if not violations and not errors and nq else 0)
+                      + (1 if dom_tie_ok else 0),
+        "dominator_worklist_model": dict(dt, holds=dom_tie_ok),
+        "checker_cmd": "coqc Props/C13.v; build/extract/vchk (RunC13.run_c13) on exported query answers; "
+                       "vchk (DomWlRun.run_dom) on observed calls of _find_dominators_internal",
         "trusted_base": TRUSTED + ["extraction (ExtrOcamlBasic only) and ocaml/driver.ml",
                                    "harness/vh/c13.py (export of graphs and of the implementation's answers)"],
         "theorems": props["theorems"],
@@ -416,8 +429,12 @@ def check_c13(pid, tier, build, props):
                        "exiting/exits equal their set definitions and are sorted (models are line-by-line); the "
                        "reference reachability, dominance (both directions) and SCC definitions equal their "
                        "path-based specifications (closure_spec). Tie: implementation answers = model/reference "
-                       "answers on the enumerated space. Not proved: that the vendored iterative Tarjan, the "
-                       "dominator work-list and is_reachable_dfs equal the references on ALL graphs (compared "
+                       "answers on the enumerated space. The dominator work-list is modelled line by line "
+                       "(Model/DomWl.v, tied by dominator_worklist_model) and proved for ALL graphs and ALL "
+                       "iteration orders of the successor sets (C13_dominator_worklist_correct): it terminates "
+                       "within the stated fuel, the assertion and the key look-ups never fail, and the table is "
+                       "the dominance relation of the reference definition. Not proved: that the vendored "
+                       "iterative Tarjan and is_reachable_dfs equal the references on ALL graphs (compared "
                        "exhaustively up to the stated bound and on random graphs); _imm_doms is exercised only "
                        "through the pipeline.",
     }
